@@ -89,6 +89,41 @@ VALUED = [
         }'''),
 ]
 
+
+# serializer half only (the parsers of these kinds use `.map(Constructor)`, which Verus does not support):
+# (file, struct, field spec list, has value)   field spec: u:<f> u32 field, id:<f> uuid newtype field,
+# d:<f> one-byte discriminant enum field, cap:<f> ChannelEndWithCapacity field
+SER_ONLY = [
+ ('add_channel_capacity', 'AddChannelCapacity', ['id:cookie', 'u:capacity'], False),
+ ('bus_listener_current_finished', 'BusListenerCurrentFinished', ['id:cookie'], False),
+ ('call_function', 'CallFunction', ['u:serial', 'id:service_cookie', 'u:function'], True),
+ ('clear_bus_listener_filters', 'ClearBusListenerFilters', ['id:cookie'], False),
+ ('create_bus_listener_reply', 'CreateBusListenerReply', ['u:serial', 'id:cookie'], False),
+ ('create_channel_reply', 'CreateChannelReply', ['u:serial', 'id:cookie'], False),
+ ('create_object', 'CreateObject', ['u:serial', 'id:uuid'], False),
+ ('destroy_bus_listener', 'DestroyBusListener', ['u:serial', 'id:cookie'], False),
+ ('destroy_object', 'DestroyObject', ['u:serial', 'id:cookie'], False),
+ ('destroy_service', 'DestroyService', ['u:serial', 'id:cookie'], False),
+ ('emit_event', 'EmitEvent', ['id:service_cookie', 'u:event'], True),
+ ('item_received', 'ItemReceived', ['id:cookie'], True),
+ ('query_introspection', 'QueryIntrospection', ['u:serial', 'id:type_id'], False),
+ ('query_service_info', 'QueryServiceInfo', ['u:serial', 'id:cookie'], False),
+ ('query_service_version', 'QueryServiceVersion', ['u:serial', 'id:cookie'], False),
+ ('send_item', 'SendItem', ['id:cookie'], True),
+ ('service_destroyed', 'ServiceDestroyed', ['id:service_cookie'], False),
+ ('stop_bus_listener', 'StopBusListener', ['u:serial', 'id:cookie'], False),
+ ('subscribe_service', 'SubscribeService', ['u:serial', 'id:service_cookie'], False),
+ ('unsubscribe_event', 'UnsubscribeEvent', ['id:service_cookie', 'u:event'], False),
+ ('unsubscribe_service', 'UnsubscribeService', ['id:service_cookie'], False),
+ ('create_service', 'CreateService', ['u:serial', 'id:object_cookie', 'id:uuid', 'u:version'], False),
+ ('create_service2', 'CreateService2', ['u:serial', 'id:object_cookie', 'id:uuid'], True),
+ ('channel_end_closed', 'ChannelEndClosed', ['id:cookie', 'd:end'], False),
+ ('close_channel_end', 'CloseChannelEnd', ['u:serial', 'id:cookie', 'd:end'], False),
+ ('start_bus_listener', 'StartBusListener', ['u:serial', 'id:cookie', 'd:scope'], False),
+ ('channel_end_claimed', 'ChannelEndClaimed', ['id:cookie', 'cap:end'], False),
+ ('claim_channel_end', 'ClaimChannelEnd', ['u:serial', 'id:cookie', 'cap:end'], False),
+]
+
 PRELUDE = open(os.path.join(HERE, 'units', '_shared', 'message_model.rs')).read() if os.path.exists(os.path.join(HERE, 'units', '_shared', 'message_model.rs')) else ''
 
 out = []
@@ -196,9 +231,56 @@ for f, st, items, dl, encf, encv in VALUED:
 }}
 
 """)
+
+def enc_of(spec):
+    head = []
+    cap = None
+    for f in spec:
+        k, n = f.split(':')
+        if k == 'u':
+            head.append(f'Field::U32(m.{n})')
+        elif k == 'id':
+            head.append(f'Field::Id(m.{n}.0)')
+        elif k == 'd':
+            head.append(f'Field::Disc(m.{n}.to_u8())')
+        elif k == 'cap':
+            cap = n
+    if cap is None:
+        return 'seq![' + ', '.join(head) + ']' if head else 'Seq::<Field>::empty()'
+    h = ', '.join(head)
+    return (f"match m.{cap} {{\n            ChannelEndWithCapacity::Sender => seq![{h}, Field::Disc(ChannelEnd::Sender.to_u8())],\n"
+            f"            ChannelEndWithCapacity::Receiver(c) => seq![{h}, Field::Disc(ChannelEnd::Receiver.to_u8()), Field::U32(c)],\n        }}")
+
+out.append("// ==== serializer half only: kinds whose parser uses `.map(Constructor)` (not supported by Verus) ====\n")
+out.append("//@item core/src/ids/bus_listener_cookie.rs struct BusListenerCookie\n//@item core/src/ids/channel_cookie.rs struct ChannelCookie\n"
+           "//@item core/src/ids/object_cookie.rs struct ObjectCookie\n//@item core/src/ids/object_uuid.rs struct ObjectUuid\n"
+           "//@item core/src/ids/service_cookie.rs struct ServiceCookie\n//@item core/src/ids/service_uuid.rs struct ServiceUuid\n"
+           "//@item core/src/ids/type_id.rs struct TypeId\n//@item core/src/bus_listener.rs enum BusListenerScope\n\n")
+discs.add('BusListenerScope')
+for f, st, spec, hasv in SER_ONLY:
+    out.append(f"// ---- {st} ({f}.rs) " + "-" * 60 + "\n")
+    out.append(f"//@item core/src/message/{f}.rs struct {st}\n\n")
+    val = (f"                &&& frame_has_value(r->Ok_0)\n                &&& frame_value(r->Ok_0) == self.value\n" if hasv else "")
+    okc = "" if hasv else "            r is Ok,\n"
+    out.append(f"""impl {st} {{
+    spec fn enc(m: {st}) -> Seq<Field> {{
+        {enc_of(spec)}
+    }}
+
+    //@fn core/src/message/{f}.rs MessageOps@{st}::serialize_message
+        ensures
+{okc}            r is Ok ==> {{
+                &&& frame_kind(r->Ok_0) == MessageKind::{st}
+                &&& frame_fields(r->Ok_0) == {st}::enc(self)
+{val}            }},
+    //@end
+}}
+
+""")
+
 out.append("// discriminant enums (one byte on the wire)\n")
 for d in sorted(discs):
     out.append(f"impl Disc for {d} {{\n    uninterp spec fn to_u8(self) -> u8;\n    uninterp spec fn from_u8(b: u8) -> Option<Self>;\n}}\n")
 out.append("\n} // verus!\n\nfn main() {}\n")
 open(os.path.join(HERE, 'units', 'core_messages', 'unit.rs'), 'w').write(''.join(out))
-print('kinds:', len(PLAIN) + len(VALUED))
+print('kinds round trip:', len(PLAIN) + len(VALUED), 'serializer only:', len(SER_ONLY))
